@@ -104,7 +104,8 @@ WRAP = ['-Wl,--wrap=ec_enc_icdf', '-Wl,--wrap=ec_dec_icdf', '-Wl,--wrap=clt_comp
 
 
 WRAP_HDR = ['-Wl,--wrap=' + x for x in ('celt_encode_with_ec', 'quant_coarse_energy', 'clt_compute_allocation', 'ec_laplace_encode',
-                                          'ec_enc_bit_logp', 'ec_enc_uint', 'ec_enc_bits', 'ec_enc_icdf', 'ec_encode_bin', 'ec_enc_shrink')]
+                                          'ec_enc_bit_logp', 'ec_enc_uint', 'ec_enc_bits', 'ec_enc_icdf', 'ec_encode_bin', 'ec_enc_shrink',
+                                          'ec_encode', 'ec_enc_done')]
 
 
 def _harness(ctx, name, variant, **kw):
